@@ -136,7 +136,9 @@ Definition cload (m2m : bool) (s : cstate) (dbitems : list nat) : cstate :=
   if full s then s
   else if m2m then
     (if subset (items s) dbitems
-     then {| items := union (items s) dbitems; full := true; pinned := pinned s; revfull := revfull s; cfailed := false; cobs := cobs s |}
+     then (if existsb (fun i => negb (mem i (items s)) && mem i (revfull s)) dbitems
+           then cfail s                                                      (* db_reverse_add on a fully loaded other side: phantom appeared there *)
+           else {| items := union (items s) dbitems; full := true; pinned := pinned s; revfull := revfull s; cfailed := false; cobs := cobs s |})
      else cfail s)                                                           (* phantom disappeared *)
   else
     let s1 := fold_left (fun acc i => if cfailed acc then acc else item_reload acc i true) dbitems s in
